@@ -423,6 +423,25 @@ class PyExec:
                 out.extend(rs)
             return out
         if isinstance(node, ast.AugAssign):
+            # numpy: `arr op= x` updates the array in place (the object stays, its contents change)
+            pre = None
+            try:
+                pre = self.eval(self._load(node.target), st.fork(), fn)
+            except Unsupported:
+                pre = None
+            if pre and len(pre) == 1 and pre[0][0] == "val" and isinstance(pre[0][1], Arr):
+                out = []
+                for k, v, s in self.eval(node.value, st, fn):
+                    if k == "raise":
+                        out.append((k, v, s))
+                        continue
+                    for k2, tgt, s2 in self.eval(self._load(node.target), s, fn):
+                        if k2 == "raise":
+                            out.append((k2, tgt, s2))
+                        else:
+                            s2.effects.append(("arr-store", tgt, ("augassign", type(node.op).__name__, v)))
+                            out.append(("fall", None, s2))
+                return out
             binop = ast.BinOp(left=self._load(node.target), op=node.op, right=node.value)
             ast.copy_location(binop, node)
             out = []
@@ -944,6 +963,11 @@ class PyExec:
             if k == "raise":
                 out.append((k, vals, s))
                 continue
+            if isinstance(vals[0], Arr) or isinstance(vals[1], Arr):
+                # element-wise arithmetic: a new array whose contents are not modelled
+                src = vals[0] if isinstance(vals[0], Arr) else vals[1]
+                out.append(("val", Arr(src.dtype, src.shape, data=uid("elementwise")), s))
+                continue
             out.extend(self.binop(node.op, vals[0], vals[1], s))
         return out
 
@@ -1144,6 +1168,9 @@ class PyExec:
                     return [("val", self.wrap_global(getattr(v.v, attr), attr), st)]
                 except AttributeError:
                     return [("raise", Const(AttributeError), st)]
+            if type(v.v).__name__ in ("iinfo", "finfo") and attr in ("max", "min", "bits", "eps"):
+                x = getattr(v.v, attr)
+                return [("val", Const(int(x) if type(v.v).__name__ == "iinfo" or attr == "bits" else float(x)), st)]
             return [("val", BoundMethod(Builtin("const." + attr), v), st)]
         if isinstance(v, Arr):
             if attr == "nbytes":
@@ -1216,6 +1243,8 @@ class PyExec:
         return out
 
     def subscript(self, base, idx, st):
+        if isinstance(base, Opaque) and base.what == "most_common" and isinstance(idx, tuple) and idx and idx[0] == "slice":
+            return [("val", Opaque("slice-of-most_common"), st)]  # a list derived from an earlier answer
         if isinstance(base, Opaque) and base.what == "tuple-of-unknown-length":
             s2 = st.fork()
             return [("val", Opaque("element"), st), ("raise", Const(IndexError), s2)]
@@ -1513,6 +1542,12 @@ class PyExec:
             rel = z3.Function("ISCLOSE", z3.RealSort(), z3.RealSort(), z3.BoolSort())
             st.pc.append(z3.Implies(x == y, rel(x, y)))
             return [("val", Sym(rel(x, y), "bool"), st)]
+        if name in ("iinfo", "finfo") and len(args) == 1 and not kwargs:
+            # machine limits of a concrete dtype: asked from numpy itself
+            try:
+                return [("val", Const(getattr(np, name)(np.dtype(self.dtype_name(args[0])))), st)]
+            except (TypeError, ValueError, Unsupported):
+                raise Unsupported("np.%s on a non-dtype argument" % name)
         if name == "can_cast" and len(args) >= 2 and kwargs.get("casting") is None and len(args) == 2:
             # decided by numpy itself on the two (concrete) dtypes
             try:
